@@ -29,6 +29,29 @@ logger = get_logger(__name__)
 # Connection timeout in seconds
 REQUEST_TIMEOUT = 30.0
 
+# Maximum size of the <META> field of a response header in bytes
+MAX_META_SIZE = 1024
+
+
+def _is_valid_meta(meta: str) -> bool:
+    """Check that a meta string can be sent as part of a response header."""
+    if "\r" in meta or "\n" in meta:
+        return False
+    return len(meta.encode("utf-8")) <= MAX_META_SIZE
+
+
+def _sanitize_meta(meta: str) -> str:
+    """Make an error message safe for use as the <META> of a response header.
+
+    Error messages may echo client-supplied data (request URLs, file names), so
+    line breaks are replaced and the result is cut to the protocol limit.
+    """
+    meta = meta.replace("\r", " ").replace("\n", " ")
+    encoded = meta.encode("utf-8", "replace")
+    if len(encoded) > MAX_META_SIZE:
+        encoded = encoded[:MAX_META_SIZE]
+    return encoded.decode("utf-8", "ignore")
+
 
 class GeminiServerProtocol(asyncio.Protocol):
     """Server-side protocol for handling Gemini and Titan requests.
@@ -262,16 +285,29 @@ class GeminiServerProtocol(asyncio.Protocol):
         )
 
         # Build response header: <STATUS><SPACE><META><CRLF>
-        header = f"{response.status} {response.meta}\r\n"
-        self.transport.write(header.encode("utf-8"))
+        # Encode header and body before anything is written, so that a response
+        # which cannot be framed is replaced as a whole instead of leaving a
+        # malformed or half-written one on the wire.
+        status, meta, body = response.status, response.meta, response.body
+        try:
+            if isinstance(body, str):
+                body = body.encode("utf-8")
+            if not _is_valid_meta(meta):
+                raise ValueError("invalid response header")
+            header = f"{status} {meta}\r\n".encode("utf-8")
+        except (UnicodeError, ValueError, TypeError):
+            body = None
+            if 40 <= status < 70:
+                # Failure responses keep their status; the message is cleaned up
+                header = f"{status} {_sanitize_meta(str(meta))}\r\n".encode("utf-8")
+            else:
+                header = b"40 Server error: invalid response\r\n"
+        self.transport.write(header)
 
         # Send body if present (only for 2x success responses)
         # FIX: Handle both text (str) and binary (bytes) content
-        if response.body:
-            if isinstance(response.body, bytes):
-                self.transport.write(response.body)
-            else:
-                self.transport.write(response.body.encode("utf-8"))
+        if body:
+            self.transport.write(body)
 
         # Close connection (Gemini/Titan: one request per connection)
         self.transport.close()
